@@ -192,11 +192,39 @@ def rule_r4(chk, facts):
         raise AnalysisBroken('only %d InsertPadding call sites found' % n)
 
 
+R5_UNITS = ['motpseudo.c', 'intpseudo.c', 'tipseudo.c', 'natpseudo.c', 'fourpseudo.c', 'codepseudo.c', 'asmcode.c']
+
+
+def rule_r5(chk, facts):
+    chk.rule('C09-R5', 'in the data-definition modules no adjustment (++, --, op=) of a counter held in a record field or a '
+             'global - fill position, word count, carry or borrow into it, code length - is overwritten by a plain '
+             'assignment on every path before it can be observed: the amount by which a statement advances the '
+             'address includes every carry and borrow the arithmetic computed', min_instances=40)
+    n = 0
+    for un in R5_UNITS:
+        u = facts.unit(un)
+        for f in u.funcs.values():
+            if f.file != un:
+                continue
+            rm = [(ln, strip(m[2])) for b, i, ln, m in f.nodes() if (is_incdec(m) or (is_assign(m) and m[1] != '=')) and
+                  strip(m[2])[0] in ('m', 'g', 'gs', 'ls')]
+            lost = {ln for ln, L in lost_updates(f)}
+            for ln, L in rm:
+                n += 1
+                ok = ln not in lost
+                chk.ob('C09-R5', '%s:%s:%s' % (un, f.name, show(L)), ok, f.loc(ln), 'observable' if ok else
+                       'the adjustment of %s is overwritten by a later plain assignment on every path before anything reads '
+                       'it: a carry/borrow or length increment is lost' % show(L))
+    if n < 80:
+        raise AnalysisBroken('only %d counter adjustments found in the data-definition modules' % n)
+
+
 def run(chk, facts, info):
     rule_r1(chk, facts)
     rule_r2(chk, facts)
     rule_r3(chk, facts)
     rule_r4(chk, facts)
+    rule_r5(chk, facts)
     chk.note('Decided: pairing of emitter, range-check type and element width per data size, range-check guards of the '
              'emitters, element sizes, the single padding routine. Not decided: IEEE rounding (numerical), byte order, '
              'CHARSET mapping, DUP values.')
